@@ -28,6 +28,7 @@ structure S where
   dsidEver : List Nat := []              -- every dataset id ever handed out
   jobs : List (String × Hub.Multi.Tok) := []  -- C18: stored continuation token per MultiSource job
   owed : List (String × List String) := []    -- C18: what an interrupted run of a job left undelivered (uris)
+  halfCreated : List String := []             -- C04: datasets whose creation died after the dataset record was written
   /-- the inputs themselves contradict the specification: an internal id or a dataset id was handed out twice
   (C04/C07/C13: identifiers are never reused, also not after a crash). The specification then has no answer. -/
   poison : Option String := none
@@ -241,7 +242,13 @@ def doQuery (a : Acc) (q : Json) : R Acc := do
         | .arr xs => xs.toList.filterMap fun x => match x with | .str v => some v | _ => none
         | _ => []
       let o := Json.mkObj [("public", if vals.isEmpty then Json.null else jStrs (Hub.Store.sortBy (· < ·) vals.eraseDups))]
-      return { a with outM := a.outM.push o, outS := a.outS.push o, nt := a.nt + 1 }
+      -- known finding D35: the meta entity of a half-created dataset is re-created without its name; a later change of the
+      -- public namespaces through core.Dataset does not reach the dataset
+      let half := s.halfCreated.contains name
+      return { a with outM := a.outM.push o, outS := a.outS.push o, nt := a.nt + 1,
+                      kf := if half then (match a.kf with | some k => some k | none => some "public-namespaces-of-half-created-dataset") else a.kf,
+                      kfi := if half then a.outM.size :: a.kfi else a.kfi,
+                      kfm := if half then (a.outM.size, "public-namespaces-of-half-created-dataset") :: a.kfm else a.kfm }
   | "related" =>
     let limit := getNatD q "limit" 0
     let inverse := getBoolD q "inverse" false
@@ -650,6 +657,9 @@ def doOp (a : Acc) (idx : Nat) (op : Json) : R Acc := do
   let jm := if writesNothing then js else
     match predicted with | some b => Json.mkObj [("landed", Json.bool b)] | none => Json.mkObj [("landed", Json.str "unknown-point")]
   let a1 := if observed then applied else skipped
+  -- known finding D35: a dataset whose creation died between the dataset record and its meta entity
+  let a1 := if ikind == "createDs" && observed && died then
+      { a1 with s := { a1.s with halfCreated := (getStrD inner "name" "") :: a1.s.halfCreated } } else a1
   return { a1 with outM := a1.outM.push jm, outS := a1.outS.push js, nt := a1.nt + (if died then 1 else 0) }
 
 def hist (inp : Json) : R Res := do
